@@ -121,17 +121,56 @@ def _cond_classes(v, cond, target_root):
     return None
 
 
+def class_of_const(c):
+    if math.isnan(c):
+        return NAN
+    if c == math.inf:
+        return PINF
+    if c == -math.inf:
+        return NINF
+    if c == 0:
+        return ZERO
+    return POS if c > 0 else NEG
+
+
 def classes_at(body, target_root, v=None):
-    """dict block -> frozenset of classes the value may have on entry to the block."""
+    """dict block -> frozenset of classes the value may have on entry to the block.  For a root that is a re-assigned local the
+    assignments inside blocks are followed (constant => its class, anything else => unknown)."""
     v = v or Vals(body)
     n = len(body.blocks)
     IN = {0: ALL}
     succ = body.succs()
     work = [0]
     guards = {}
+    tl = target_root.base[1] if target_root.kind == "local" and not target_root.path else None
+
+    def through_block(b, cur):
+        if tl is None:
+            return cur
+        for st in body.blocks[b]["stmts"]:
+            if st["k"] == "assign" and st["place"]["l"] == tl and not st["place"]["p"]:
+                rv = st["rv"]
+                c = const_f64(rv["op"]) if rv["k"] == "use" else None
+                cur = frozenset([class_of_const(c)]) if c is not None else ALL
+                if c is None and rv["k"] == "use":
+                    ct = v.call_term(v.root(rv["op"]))
+                    if ct is not None and (ct.get("callee") or {}).get("impl_self") == "f64" and ct["callee"].get("name") == "max":
+                        if any((const_f64(a) or 0) > 0 for a in ct["args"]):
+                            cur = frozenset([POS, PINF])
+        t_ = body.blocks[b]["term"]
+        if t_["k"] == "call" and t_["dest"]["l"] == tl and not t_["dest"]["p"]:
+            cur = ALL
+            c_ = t_.get("callee") or {}
+            if c_.get("impl_self") == "f64" and c_.get("name") == "max" and len(t_["args"]) == 2:
+                # x.max(c) with a positive constant c: the result is >= c > 0 (max ignores a NaN operand)
+                consts = [const_f64(a) for a in t_["args"]]
+                if any(c is not None and c > 0 for c in consts):
+                    cur = frozenset([POS, PINF])
+        return cur
+
     while work:
         b = work.pop()
-        cur = IN[b]
+        cur = through_block(b, IN[b])
         t = body.blocks[b]["term"]
         outs = {}
         if t["k"] == "switch":
@@ -152,4 +191,5 @@ def classes_at(body, target_root, v=None):
             if new != old:
                 IN[s] = new
                 work.append(s)
-    return IN, guards
+    OUT = {b: through_block(b, c_) for b, c_ in IN.items()}
+    return IN, guards, OUT
